@@ -42,6 +42,22 @@ def collect(rep, tier, rnd):
                         continue
                     traces.append(ev)
                     meta.append(m)
+    # a few hundred samples: the partition / alignment contract does not depend on the data size
+    from gemclus.linear import LinearMMD, LinearModel
+    for n, bs in ((300, 64), (257, 256), (513, 100)):
+        X = train.make_data(n, 2, rnd)
+        for fam, model, y in (("LinearMMD/precomputed", LinearMMD(n_clusters=2, kernel="precomputed", max_iter=1, batch_size=bs, random_state=0), train.id_affinity(n)),
+                              ("LinearModel/kl_ova", LinearModel(n_clusters=2, gemini="kl_ova", max_iter=2, batch_size=bs, random_state=1), None)):
+            with warnings.catch_warnings():
+                warnings.simplefilter("ignore")
+                ev, err = train.record_fit(model, X, y)
+            m = dict(family=fam, n=n, batch_size=bs, max_iter=model.max_iter, decorated=False, solver="adam")
+            rep.case(m)
+            if err is not None:
+                rep.violation(f"fit raised {type(err).__name__}: {err} for {m}", {"meta": m}, tags=("raises",))
+                continue
+            traces.append(ev)
+            meta.append(m)
     # path(): the same batching contract during the initial fit and every epoch of every step (mode "path": the number of
     # epochs is decided by the patience rule, everything else is judged as in fit); dynamic mode trains each step with the
     # affinity of the currently selected variables
